@@ -14,15 +14,15 @@ Local Open Scope list_scope.
 
 Theorem exception_type_full_refuted :
   exists t : exc_type, et_plain t = true /\
-    create_for pass_through_types known_string_constructor_errors identity_rules t = Staging.
+    create_for pass_through_types known_string_constructor_errors key_error_types identity_rules t = Staging.
 (* witness: class E(ValueError): pass -- in no table, before or after the proposed fix; on the tables of the
    unchanged tree "builtins.IndexError" is a witness as well (observed on the implementation) *)
 Proof. exists (mkexc "user.E" false true). split; vm_compute; reflexivity. Qed.
 
 (* the guarded statement: whenever the code's own test agrees with "plain" the type is kept *)
 Theorem exception_type_guarded : forall t : exc_type,
-  et_plain t = true -> et_fact t = true -> et_name t <> "builtins.KeyError" ->
-  create_for pass_through_types known_string_constructor_errors base_rules t = Same.
+  et_plain t = true -> et_fact t = true -> mem (et_name t) key_error_types = false ->
+  create_for pass_through_types known_string_constructor_errors key_error_types base_rules t = Same.
 Proof.
   intros t _ Hf Hn. unfold create_for. rewrite (rules_ok_sound base_rules); [|vm_compute; reflexivity|apply not_key; exact Hn].
   unfold spec_create, valuation_of. simpl. rewrite Hf. rewrite orb_true_r. reflexivity.
